@@ -130,13 +130,15 @@ func try(f func()) (p string) {
 }
 
 // tryTimed runs f with a watchdog; returns "hang" if it does not return in time.
-func tryTimed(f func()) string {
+func tryTimed(f func()) string { return tryFor(5*time.Second, f) }
+
+func tryFor(d time.Duration, f func()) string {
 	done := make(chan string, 1)
 	go func() { done <- try(f) }()
 	select {
 	case p := <-done:
 		return p
-	case <-time.After(5 * time.Second):
+	case <-time.After(d):
 		return "hang"
 	}
 }
@@ -194,7 +196,17 @@ func appendRun(o *hx.Out, seed int, sizes []int) {
 		if !want[n] {
 			continue
 		}
-		rec := appRec{K: "app", Seed: seed, N: n, St: stOf(t), PK: pk, Pst: pst, Batch: hx32(rmt.CalculateRoot(vals))}
+		var batch []byte
+		if p := tryFor(time.Second, func() { batch = rmt.CalculateRoot(vals) }); p != "" {
+			// a hanging (or panicking) CalculateRoot is reported with the concrete length; a hang leaks goroutines, so stop here
+			o.Put(appRec{K: "app", Seed: seed, N: n, St: stOf(t), PK: 3, Pst: st{P: []string{}}, Panic: "CalculateRoot:" + p})
+			if p == "hang" {
+				o.Close()
+				os.Exit(0)
+			}
+			continue
+		}
+		rec := appRec{K: "app", Seed: seed, N: n, St: stOf(t), PK: pk, Pst: pst, Batch: hx32(batch)}
 		if pk != 1 {
 			rec.Pst = st{R: "", P: []string{}, S: 0}
 		}
@@ -273,6 +285,15 @@ func proofCase(seed, n int, ups [][2]int, qs []int, withTampers bool, r *hx.Rng)
 		s2 := cp(proof.SiblingHashes)
 		s2[i] = oh(i)
 		rec.Tampers = append(rec.Tampers, tamper{K: 2, I: i, V: verify(qh, &rmt.Proof{Size: proof.Size, Idxs: proof.Idxs, SiblingHashes: s2}, root)})
+	}
+	// a conflicting claim for the index of query i, put in front of the honest claims
+	for i, q := range qs {
+		if q < 0 || i > 2 {
+			continue
+		}
+		q2 := append([][]byte{oh(i)}, qh...)
+		i2 := append([]uint64{proof.Idxs[i]}, proof.Idxs...)
+		rec.Tampers = append(rec.Tampers, tamper{K: 4, I: i, V: verify(q2, &rmt.Proof{Size: proof.Size, Idxs: i2, SiblingHashes: proof.SiblingHashes}, root)})
 	}
 	// idx of query qi replaced by the idx of an unqueried leaf j
 	for tries := 0; tries < 3 && len(seen) < n && len(qs) > 0; tries++ {
